@@ -61,6 +61,7 @@ pub fn is_rare(op: &Op) -> bool {
         K::MExtendLie => op.t == 1,
         K::MResize => op.b == 1,
         K::MChunkMut => op.b == 1,
+        K::MExtendIter => op.b >= 2,
         K::MUninitApi | K::MIntoIter | K::BIntoIter | K::BSliceBounds => true,
         _ => false,
     }
@@ -238,6 +239,10 @@ pub fn enabled(w: &World, cfg: &Cfg) -> Vec<Op> {
                     add(&mut v, Op::new(K::MExtendIter, i, 0, a, 0));
                 }
                 add(&mut v, Op::new(K::MExtendIter, i, 0, 1, 1));
+                // Extend<Bytes>: a static chunk, a uniquely held heap chunk, and one of 1 KiB
+                add(&mut v, Op::new(K::MExtendIter, i, 0, 2, 2));
+                add(&mut v, Op::new(K::MExtendIter, i, 0, 3, 3));
+                add(&mut v, Op::new(K::MExtendIter, i, 0, 1024, 3));
                 // lying size hints (too small / too large) and an iterator that panics after growth
                 add(&mut v, Op::new(K::MExtendLie, i, 0, c - l + 1, 0));
                 add(&mut v, Op::new(K::MExtendLie, i, 0, 1, 3));
